@@ -1,0 +1,22 @@
+//go:build !verif
+
+package redisemu
+
+import (
+	"net"
+	"sync"
+)
+
+// Simulation hooks (see simhooks_on.go). Without the verif build tag every
+// hook is an empty function and the listener seam is net.Listen.
+
+func simYield(site string)                       {}
+func simBeforeLock(mu *sync.Mutex, site string)  {}
+func simAfterUnlock(mu *sync.Mutex, site string) {}
+func simTaskBegin(kind string, id int64)         {}
+func simTaskEnd()                                {}
+func simRecover()                                {}
+func simProbe(name string)                       {}
+func simPersistStage(stage string, path string)  {}
+
+func netListen(network, addr string) (net.Listener, error) { return net.Listen(network, addr) }
